@@ -1,6 +1,8 @@
 import AFDriver.Wire
 import AFModel.FloatOps
 import AFModel.Gate
+import AFModel.GateComp
+import AFModel.GateRoute
 
 open Lean (Json)
 open AF AF.Wire
@@ -18,19 +20,146 @@ partial def parseATree (j : Json) : Except String (ATree Float) := do
   let c ← (← getArr j "c").toList.mapM parseATree
   pure (.node a c)
 
-def handleC03 (j : Json) : Except String Json := do
-  let parsed ← parseNode (← j.getObjVal? "comp")
-  let t := parsed.node
+/-- the wire composition with the `asserts` each prior-model node carries (`extract_comp._common`) -/
+partial def parseANode (j : Json) : Except String (ANode Float) := do
+  let k ← getStr j "k"
+  let asserts : Except String (List (Asrt Float)) :=
+    match j.getObjVal? "asserts" with
+    | .ok (Json.arr arr) => arr.toList.mapM parseAsrt
+    | _ => pure []
+  let attrs : Except String (List (String × ANode Float)) := do
+    (← getArr j "attrs").toList.mapM fun a => do
+      let pair ← a.getArr?
+      if pair.size != 2 then throw "bad attr"
+      pure ((← pair[0]!.getStr?), (← parseANode pair[1]!))
+  match k with
+  | "model" =>
+      let cls ← getStr j "cls"
+      let ctor ← (← getArr j "ctor").toList.mapM (·.getStr?)
+      let mut defaults : List (String × ANode Float) := []
+      match j.getObjVal? "defaults" with
+      | .ok (Json.arr arr) =>
+          for a in arr do
+            let pair ← a.getArr?
+            if pair.size != 2 then throw "bad default"
+            let (n, _) ← parseNodeAux pair[1]! []
+            defaults := defaults ++ [((← pair[0]!.getStr?), ANode.leaf n)]
+      | _ => pure ()
+      pure (.model cls ctor (← asserts) ((← attrs) ++ defaults))
+  | "coll" => pure (.coll (← asserts) (← attrs))
+  | "arith" =>
+      pure (.arith (← binOpOf (← getStr j "op")) (← asserts) (← attrs)
+        (← parseANode (← j.getObjVal? "l")) (← parseANode (← j.getObjVal? "r")))
+  | "modif" =>
+      pure (.modif (← unOpOf (← getStr j "op")) (← asserts) (← attrs) (← parseANode (← j.getObjVal? "x")))
+  | "array" =>
+      pure (.array (← (← getArr j "shape").toList.mapM (·.getNat?)) (← asserts) (← attrs))
+  | _ => let (n, _) ← parseNodeAux j []; pure (.leaf n)
+
+/-- shape of a recursion tree: number of assertions per node -/
+partial def jsonOfShape : ATree Float → Json
+  | .node as cs => Json.mkObj [("n", Json.num (as.length : Lean.JsonNumber)),
+      ("c", Json.arr (cs.map jsonOfShape).toArray)]
+
+def jsonOfTrace (tr : List (List Bool)) : Json :=
+  Json.arr (tr.map (fun vs => Json.arr (vs.map Json.bool).toArray)).toArray
+
+def jsonOfOutcome (r : Except GateErr (Inst Float)) : List (String × Json) :=
+  match r with
+  | .ok i => [("ok", jsonOfInst i)]
+  | .error .length => [("err", "length")]
+  | .error .priorLimit => [("err", "priorLimit")]
+  | .error .fit => [("err", "fit")]
+
+/-- `kind = "comp"`: the gate computed from the assertion-carrying composition -/
+def handleC03Comp (j : Json) : Except String Json := do
+  let c ← parseANode (← j.getObjVal? "comp")
   let lims ← parseLims (← j.getObjVal? "lims")
-  let asserts ← (← getArr j "asserts").toList.mapM parseAsrt
   let v ← vecOfJson (← j.getObjVal? "v")
   let ignore ← getBool j "ignore"
-  let tr ← parseATree (← j.getObjVal? "atree")
-  match gateTree floatOps t lims tr v ignore with
-  | .ok i => pure (Json.mkObj [("ok", jsonOfInst i),
-      ("verdicts", Json.arr (asserts.map (fun a => Json.bool (evalA floatOps (valOf (argsOfVector t v)) a))).toArray)])
-  | .error .length => pure (Json.mkObj [("err", "length")])
-  | .error .priorLimit => pure (Json.mkObj [("err", "priorLimit")])
-  | .error .fit => pure (Json.mkObj [("err", "fit")])
+  pure (Json.mkObj (jsonOfOutcome (gateComp floatOps c lims v ignore) ++
+    [("trace", jsonOfTrace (gateCompTrace floatOps c lims v ignore)),
+     ("full", jsonOfTrace (fullTraces floatOps (valOf (argsOfVector c.erase v)) c.trees)),
+     ("trees", Json.arr (c.trees.map jsonOfShape).toArray),
+     ("count", Json.num ((count c.erase : Nat) : Lean.JsonNumber))]))
+
+def routeOf : String → Except String Route
+  | "vector" => pure .vector | "unitVector" => pure .unitVector | "medians" => pure .medians
+  | "random" => pure .random | "arguments" => pure .arguments | "pathArguments" => pure .pathArguments
+  | s => throw s!"bad route {s}"
+
+/-- `kind = "route"`: one of the routes to an instance, with its flag -/
+def handleC03Route (j : Json) : Except String Json := do
+  let c ← parseANode (← j.getObjVal? "comp")
+  let lims ← parseLims (← j.getObjVal? "lims")
+  let v ← vecOfJson (← j.getObjVal? "v")
+  let ignore ← getBool j "ignore"
+  let r ← routeOf (← getStr j "route")
+  pure (Json.mkObj (jsonOfOutcome (gateRoute floatOps r c lims v ignore)))
+
+def binName : BinOp → String
+  | .add => "add" | .sub => "sub" | .mul => "mul" | .div => "div" | .floordiv => "floordiv"
+  | .mod => "mod" | .pow => "pow"
+def unName : UnOp → String
+  | .neg => "neg" | .abs => "abs" | .log => "log" | .log10 => "log10"
+
+/-- structural fingerprint of an operand / an assertion object (which object sits in which slot) -/
+partial def fpNode : Node Float → Json
+  | .prior id => Json.mkObj [("p", Json.num (id : Lean.JsonNumber))]
+  | .const v => Json.mkObj [("c", hexOfFloat v)]
+  | .arith op _ l r => Json.mkObj [("op", binName op), ("l", fpNode l), ("r", fpNode r)]
+  | .modif op _ x => Json.mkObj [("op", unName op), ("x", fpNode x)]
+  | _ => Json.mkObj [("o", Json.num (1 : Lean.JsonNumber))]
+partial def fpAsrt : Asrt Float → Json
+  | .cmp s l g => Json.mkObj [("a", if s then "lt" else "le"), ("l", fpNode l), ("g", fpNode g)]
+  | .and x y => Json.mkObj [("a", "and"), ("x", fpAsrt x), ("y", fpAsrt y)]
+  | .lit b => Json.mkObj [("a", "lit"), ("v", Json.bool b)]
+
+def cmpOpOf : String → Except String CmpOp
+  | "<" => pure .lt | "<=" => pure .le | ">" => pure .gt | ">=" => pure .ge
+  | s => throw s!"bad comparison {s}"
+
+def parseOpnd (j : Json) : Except String (Opnd Float) := do
+  match j.getObjVal? "num" with
+  | .ok x => pure (.num (← floatOfJson x))
+  | .error _ =>
+      let (n, _) ← parseNodeAux (← j.getObjVal? "obj") []
+      pure (.obj n)
+
+/-- `kind = "build"`: what the comparison operators build (`form`: `cmp` = `x op y`, `chain` =
+`(x op y) op z`, `refl` = `k op (x op y)`) and its verdict for a vector -/
+def handleC03Build (j : Json) : Except String Json := do
+  let parsed ← parseNode (← j.getObjVal? "comp")
+  let v ← vecOfJson (← j.getObjVal? "v")
+  let ops ← (← getArr j "ops").toList.mapM (fun o => do cmpOpOf (← o.getStr?))
+  let xs ← (← getArr j "operands").toList.mapM parseOpnd
+  let a ← match (← getStr j "form"), ops, xs with
+    | "cmp", [op], [x, y] => pure (cmpOpnd floatOps x op y)
+    | "chain", [op₁, op₂], [x, y, z] => pure (chainOpnd floatOps x op₁ y op₂ z)
+    | "refl", [op₁, op₂], [.num k, x, y] => pure (reflOpnd floatOps k op₁ x op₂ y)
+    | f, _, _ => throw s!"bad build request {f}"
+  pure (Json.mkObj [("shape", fpAsrt a),
+    ("verdict", Json.bool (evalA floatOps (valOf (argsOfVector parsed.node v)) a))])
+
+def handleC03 (j : Json) : Except String Json := do
+  match getStr j "kind" with
+  | .ok "comp" => handleC03Comp j
+  | .ok "route" => handleC03Route j
+  | .ok "build" => handleC03Build j
+  | .ok k => throw s!"bad kind {k}"
+  | .error _ =>
+    let parsed ← parseNode (← j.getObjVal? "comp")
+    let t := parsed.node
+    let lims ← parseLims (← j.getObjVal? "lims")
+    let asserts ← (← getArr j "asserts").toList.mapM parseAsrt
+    let v ← vecOfJson (← j.getObjVal? "v")
+    let ignore ← getBool j "ignore"
+    let tr ← parseATree (← j.getObjVal? "atree")
+    match gateTree floatOps t lims tr v ignore with
+    | .ok i => pure (Json.mkObj [("ok", jsonOfInst i),
+        ("verdicts", Json.arr (asserts.map (fun a => Json.bool (evalA floatOps (valOf (argsOfVector t v)) a))).toArray)])
+    | .error .length => pure (Json.mkObj [("err", "length")])
+    | .error .priorLimit => pure (Json.mkObj [("err", "priorLimit")])
+    | .error .fit => pure (Json.mkObj [("err", "fit")])
 
 end AF.Driver
